@@ -17,6 +17,7 @@ import (
 type Baseline struct {
 	Property string         `json:"property"`
 	Groups   map[string]int `json:"groups"` // group -> number of discharged obligations
+	Unproved []string       `json:"unproved,omitempty"` // obligations generated but not discharged at baseline time: not claimed; the quick tier does not re-try them
 	Partial  map[string]int `json:"partial_groups,omitempty"` // groups that also had undischarged members at baseline (name-level matching only)
 	Names    []string       `json:"names"`
 	Funcs    []string       `json:"functions_under_contract"`
@@ -170,6 +171,27 @@ func runCheck(P *Prog, prop, tier string, seed int, writeBase bool, t0 time.Time
 				}
 			}
 		}
+	}
+	// quick tier: obligations that were not proved at baseline time are not claimed and not re-tried (thorough tier tries them)
+	skipped := 0
+	if b0 := loadBaseline(prop); b0 != nil && !writeBase && tier == "quick" {
+		unp := map[string]bool{}
+		for _, n := range b0.Unproved {
+			unp[n] = true
+		}
+		kf := loadKnown()
+		kept := jobs[:0]
+		for _, j := range jobs {
+			if unp[j.o.Name] && matchKnown(kf, prop, j.o) == nil {
+				skipped++
+				continue
+			}
+			kept = append(kept, j)
+		}
+		jobs = kept
+	}
+	if skipped > 0 {
+		fmt.Printf("govc: %d obligations that were not proved at baseline time are not claimed and were skipped in the quick tier\n", skipped)
 	}
 	// deterministic order, rotated by the seed (verdicts do not depend on it)
 	sort.SliceStable(jobs, func(i, j int) bool { return jobs[i].o.Name < jobs[j].o.Name })
@@ -345,6 +367,12 @@ func runCheck(P *Prog, prop, tier string, seed int, writeBase bool, t0 time.Time
 			}
 		}
 		b := Baseline{Property: prop, Groups: groupsNow, Names: names, Partial: partial}
+		for _, v := range vs {
+			if v.Status != "discharged" {
+				b.Unproved = append(b.Unproved, v.Obl.Name)
+			}
+		}
+		sort.Strings(b.Unproved)
 		sort.Strings(b.Names)
 		for k := range funcsUnder {
 			b.Funcs = append(b.Funcs, k)
@@ -638,10 +666,10 @@ func cmdReplay(args []string) {
 	fmt.Println(string(data))
 	var rep map[string]interface{}
 	json.Unmarshal(data, &rep)
-	if t, ok := rep["replay_test"].(string); ok && t != "" {
-		out, pass := runReplayTest(rep["replay_pkg"].(string), t)
+	if h, ok := rep["replay_harness"].(string); ok && h != "" {
+		out, repro := replayFromFile(&Prog{RepoDir: repoDir}, rep)
 		fmt.Println(out)
-		if !pass {
+		if repro {
 			os.Exit(1)
 		}
 	}
